@@ -57,6 +57,7 @@ Proof. unfold safe_commits, handle_cancel_stage. destruct (get_stage s i); [|saf
 Lemma safe_start_task s id i t : safe_commits (h_commits (handle_start_task s id i t)).
 Proof. unfold safe_commits, handle_start_task. destruct (get_stage s i); [|safe]. destruct (nth_error _ t); [|safe].
   destruct (status_eqb _ NOT_STARTED); [unfold ok; cbn [h_commits]; safe|].
+  destruct (before_incomplete s i); [unfold ok; cbn [h_commits]; safe|].
   destruct (negb _); [unfold ok; cbn [h_commits]; safe|]. destruct (t_disabled t0); unfold ok; cbn [h_commits]; safe. Qed.
 
 Lemma safe_complete_task s id i t x : safe_commits (h_commits (handle_complete_task s id i t x)).
